@@ -6,14 +6,21 @@ CFG = {
     "coq_header": "From DS Require Import Base TaskMode.\nFrom DSR Require Import Run_C16.",
     "case_type": "c16case",
     "judge": "judge",
-    "rule": "one case = one scenario run against a live HttpServer (127.0.0.1:0) in one task mode: K concurrent "
-            "requests over raw TCP, each client following a script (stay and read the whole response; cut the "
+    "rule": "one case = one scenario run against a live HttpServer (127.0.0.1:0) in one task mode over one "
+            "transport - transport:h1 HTTP/1.1 on cleartext TCP (raw bytes), transport:h2 cleartext HTTP/2 with "
+            "prior knowledge, one connection per request (hyper http2 client; leaving = RST_STREAM by dropping the "
+            "response future/body, or dropping the connection), transport:h2mux all requests as streams of one "
+            "shared HTTP/2 connection (leaving = RST_STREAM only), transport:tls HTTP/1.1 over TLS (dropshot "
+            "ConfigTls with a throw-away certificate, hyper http1 client on tokio-rustls without verification; "
+            "leaving = the TLS stream is dropped without close_notify): K concurrent "
+            "requests, each client following a script (stay and read the whole response; cut the "
             "request inside the request line / before the final CRLF; send the full request and close at once; "
             "wait until the handler has started and ticked n times, then drop / shutdown(Both) / half-close; read "
             "part of a 1 MiB response and close while the rest is being written), handlers that tick, wait for the "
             "harness's release, or panic at a scripted tick; a probe request sent while the others are in flight. "
-            "Fixed part: 13 single-request scenarios per mode (every disconnect point by itself); seeded part: "
-            "mixed scenarios with K in {2,4,16,64} (quick: 8 per mode; thorough: K in {1,2,4,16,64}, 160 per mode). "
+            "Fixed part, per mode: 13 single-request scenarios over h1 (every disconnect point by itself), 8 over "
+            "h2, 9 over tls; seeded part, mixed scenarios per mode: quick h1 K in {2,4,16,64} x8, h2 K=4 x2, h2mux "
+            "K in {4,16} x3, tls K in {4,16} x3; thorough h1 160, h2 55, h2mux 70, tls 63 (K up to 64). "
             "The observation is the global event log (handler: entered/tick/completed/panicking/dropped-before-"
             "completion via a drop guard; client: disconnecting/response read complete?/no response), judged in "
             "Coq: the property clauses evaluated on the log (spec) and acceptance by the task-mode model with the "
@@ -22,9 +29,13 @@ CFG = {
             "handler (a scripted point that was missed still yields a judged, accepted trace).",
     "trusted_base": COMMON_TB + [
         "hyper 1.6 / hyper-util 0.1.10 (library contract, step Detect of the model): once the client's FIN/RST is "
-        "seen on a connection with a request in flight, the connection future ends and the in-flight service "
-        "future is dropped; until then the service future keeps being polled; a response is written only after "
+        "seen on an HTTP/1 connection with a request in flight, the connection future ends and the in-flight "
+        "service future is dropped; on HTTP/2 a RST_STREAM (or the end of the connection) drops the stream's "
+        "service future; until then the service future keeps being polled; a response is written only after "
         "the service future returned",
+        "h2 0.4, rustls 0.22 / tokio-rustls 0.25 (server side, inside dropshot) and the harness's clients: hyper "
+        "client connections (http1 over tokio-rustls, http2 prior knowledge) - dropping a response future or "
+        "body resets the stream, aborting the connection task closes the socket",
         "tokio 1.44 (library contract): a future given to tokio::spawn is polled to completion regardless of its "
         "JoinHandle or of who awaits its result; a panic in a task is confined to that task; oneshot::Sender::send "
         "fails iff the receiver was dropped",
@@ -37,11 +48,14 @@ CFG = {
         "PARTIAL: trace inclusion is checked on sampled executions only; schedules are chosen by tokio and the "
         "kernel, not enumerated",
         "the model cannot exhibit: tokio's scheduling order, TCP teardown timing (FIN vs RST, how soon hyper polls "
-        "the socket after the client left), HTTP/2 streams, TLS; Detect is an atomic step in the model",
+        "the socket after the client left), hyper's HTTP/2 state machine (streams, flow control, GOAWAY), TLS "
+        "records; Detect is an atomic step in the model. Trace inclusion is sampled over three transports "
+        "(h1, h2 with and without multiplexing, HTTP/1.1 over TLS); HTTP/2 over TLS (ALPN) is not exercised",
         "liveness clauses (a held handler whose client left is cancelled; connected clients are answered) are "
         "judged with deadlines of 30-60 s during which the handler would keep ticking; nothing is required to "
         "happen faster",
-        "one request per connection (pipelined/keep-alive successors of a cancelled request are not exercised)",
+        "one request per connection, or one stream per request on a shared HTTP/2 connection (pipelined/"
+        "keep-alive successors of a cancelled HTTP/1 request are not exercised)",
     ],
     "manifest": {
         "category": "proof",
@@ -52,12 +66,15 @@ CFG = {
                 "ends in exactly one of Completed/Cancelled/Panicked and terminal states are absorbing; a panic (any "
                 "step) changes no other request's record nor what it may do next; connected clients are never "
                 "cancelled, can always finish and at quiescence have their response delivered. Tie to the code: trace "
-                "inclusion on sampled executions of the live server in both modes (K up to 64 concurrent requests, "
-                "five disconnect points, three ways of disconnecting, panicking handlers), each observed event log "
+                "inclusion on sampled executions of the live server in both modes over three transports - HTTP/1.1 on "
+                "TCP, cleartext HTTP/2 (own connection or multiplexed streams; RST_STREAM or connection drop), "
+                "HTTP/1.1 over TLS - (K up to 64 concurrent requests, five disconnect points, several ways of "
+                "disconnecting, panicking handlers), each observed event log "
                 "replayed through the model and checked against the property clauses, both evaluated by Coq.",
         "design_ref": "DESIGN.md §1.4, §6 C16",
         "note": "Partial: schedules are sampled, not enumerated. The model cannot exhibit tokio's scheduler, TCP "
-                "teardown timing, how soon hyper polls the socket, HTTP/2 or TLS. hyper's drop-on-disconnect and "
+                "teardown timing, how soon hyper polls the socket, hyper's HTTP/2 state machine or TLS records (those "
+                "transports are sampled, not modelled); HTTP/2 over TLS is not exercised. hyper's drop-on-disconnect and "
                 "tokio::spawn's run-to-completion are contracts (trusted_base) encoded as the Detect step and the "
                 "'alive' guard.",
         "technique": "Coq proof over an LTS with executable trace acceptor + trace inclusion on sampled live-server runs",
